@@ -435,11 +435,12 @@ Proof.
   destruct (Nat.ltb_spec j (NN (P e) + FF (P e))); [reflexivity|lia].
 Qed.
 
-Lemma c02_d3_lo e E E' d del (b : bool) i j : (i < NN (P e))%nat -> (j < NN (P e))%nat ->
+Lemma c02_d3_lo e E E' d del (hi : nat -> nat -> Qc) (b : bool) i j :
+  (i < NN (P e))%nat -> (j < NN (P e))%nat ->
   get (if b then sub_rebuild e E d del
        else tab2 (NN (P e)) (WW (P e) E')
               (fun f j0 => if Nat.ltb j0 (NN (P e) + FF (P e))
-                           then get (sub_rebuild e E d del) f j0 else Q2Qc 0)) i j
+                           then get (sub_rebuild e E d del) f j0 else hi f j0)) i j
   = get d i j.
 Proof.
   intros Hi Hj. destruct b.
@@ -490,6 +491,10 @@ Proof.
   rewrite c02_set_orders_lo by assumption.
   rewrite <- (c02_dtot_split e E' (dem (eco s1)) d3 ords).
   - reflexivity.
-  - intros f0 j0 Hf0 Hj0. unfold d3. apply c02_d3_lo; assumption.
+  - intros f0 j0 Hf0 Hj0. unfold d3.
+    match goal with
+    | |- get (if _ then _ else tab2 _ _ (fun f j => if _ then _ else @?h f j)) _ _ = _ =>
+        apply (c02_d3_lo e _ _ _ _ h); assumption
+    end.
 Qed.
 Print Assumptions c02_compose.
